@@ -627,6 +627,12 @@ def attach_order(c, label=None):
     if sw.invariant_violated != "NeverDivertUnpublished":
         raise tlcmod.TlcError("mc/Attach_swapped.cfg (divert attached first) was expected to violate NeverDivertUnpublished "
                               "(anti-vacuity of the clause); got %s" % (sw.invariant_violated or sw.error_lines[:2] or "no violation"))
+    # the same clause for every number of retries: the inductive argument is checked by the proof system
+    from vlib import tlaps
+    pr = tlaps.prove("AttachProof", timeout=300)
+    c.extra["attach_proof_tlaps"] = pr
+    if not pr["proved"]:
+        raise tlcmod.TlcError("spec/proofs/AttachProof.tla is not proved any more (Attach.tla changed?): %s" % pr.get("output_tail", "")[-600:])
     obj = build_object()
     bindir = build.cargo_build("agent")
     trows, info = _attach_run(obj, bindir, "realmaps_att_%s_%d" % (label, os.getpid()))
